@@ -5,6 +5,10 @@ props=[json.loads(l) for l in open('/verif/properties.jsonl')]
 ENV="GOFLAGS=-mod=mod GOPROXY=off GOSUMDB=off GOTOOLCHAIN=local"
 SIM="the scripted in-memory connection, reference broker (independent MQTT 3.1.1 codec) and instrumented Persistence of /verif/harness/sim model network, broker and store faithfully; faults are realistic (see DESIGN.md section 3 conventions)"
 checks={
+ "C04":("fault_enumeration","runtime monitoring: reception oracle over step-scripted episodes with the reference broker as QoS 2 sender (retransmissions, identifier reuse), lost acknowledgements, breaks, restarts via AdoptSession, transient store errors",
+        "Held on the episodes run: no exactly-once message came out of ReadSlices twice in one process, nor again after a restart once the next invocation had come back (marker durable), every message came out at least once, and at idle the broker's handshake table was empty, i.e. every PUBLISH (duplicate or not) got its PUBREC and every PUBREL its PUBCOMP.","3/C04"),
+ "C07":("exploration","runtime monitoring: acknowledgement-timing oracle with a harness-controlled read loop (each ReadSlices invocation granted explicitly), competing outbound requests, failing/lost acknowledgement writes, breaks, restarts; race detector on",
+        "Held on the schedules produced: every PUBACK/PUBREC byte was written after the return of that identifier AND after the next ReadSlices invocation, an owed acknowledgement survived reconnects (written before the same message came out again), and every returned QoS 1/2 message was acknowledged by idle.","3/C07"),
  "C06":("exploration","runtime monitoring: differential oracle (reference stream expectation, all fragmentations agree) over exhaustive single-cut/single-stall fragmentations of generated streams at small read buffers, sampled at 128 KiB",
         "Held on the fragmentations run: for each generated well-formed stream every single cut position, every single cut followed by a progress-making expiry, 1-byte reads, the coalesced whole and PRNG multi-cut plans gave exactly the reference (topic, payload / BigMessage Topic, Size, ReadAll) list and the reference acknowledgement bytes, with no ReadSlices error. Exhaustive in cut position per stream at small buffers; streams themselves are sampled.","3/C06"),
  "C02":("fault_enumeration","runtime monitoring: crash-point enumeration over recorded (store, broker) snapshots, AdoptSession on each, byte-exact resend oracle, up to 3 generations, wrap positioning",
